@@ -229,7 +229,7 @@ func (concEngine) Gen(prop string, seed uint64, tier string) *Spec {
 			}
 			if spec.Knobs["big"] == 2 {
 				// truncations, removals and renames of the two large files
-				weights = []int{4, 12, 14, 8, 4, 30, 3, 2, 1, 1, 4, 0, 1, 2}
+				weights = []int{4, 12, 14, 14, 8, 30, 3, 2, 1, 1, 4, 0, 1, 2}
 			}
 			switch rng.Pick(weights) {
 			case 0:
@@ -267,6 +267,11 @@ func (concEngine) Gen(prop string, seed uint64, tier string) *Spec {
 				op = Op{K: "read", H: fileSlot(), Off: uint64(rng.Intn(2)) * 2048, Len: 8192}
 			case 5:
 				op = Op{K: "setattr", H: fileSlot(), Off: uint64(rng.Intn(4)) * 1500}
+				if spec.Knobs["big"] != 0 && rng.Chance(0.3) {
+					// cut to a few bytes / grow again by several blocks: what a write across the
+					// new end of file left in the old blocks must not come back
+					op.Off = []uint64{100, 700, 9000, 20000}[rng.Intn(4)]
+				}
 			case 6:
 				op = Op{K: "lookup", H: dirSlot(), N: name()}
 				if rng.Chance(0.2) {
